@@ -49,7 +49,7 @@ def cmd_import(prop, rnd=1):
     for m in sorted(src.glob("mut*")):
         if not (m / "patch.diff").exists():
             continue
-        dst = SEEDED / f"{prop}-{m.name.replace('mut', 'm' if rnd == 1 else 'n')}"
+        dst = SEEDED / f"{prop}-{m.name.replace('mut', {1: 'm', 2: 'n', 3: 'p'}.get(rnd, 'q'))}"
         dst.mkdir(parents=True, exist_ok=True)
         for f in ("patch.diff", "demo.py", "meta.json"):
             if (m / f).exists():
